@@ -464,6 +464,18 @@ pub fn gen_cases(profile: &str, seed: u64, b: &Budget) -> Vec<Case> {
                 mode = [Mode::Mt(2), Mode::St, Mode::Mt(3), Mode::Mt(1)][k % 4].clone();
                 bps = [16, 24, 8, 20, 12][k % 5];
             }
+            "c04" | "c08" if idx % 100 == 41 && b.cases > 2000 => {
+                // (thorough tier only: TLC needs two minutes for such a frame; the quick tier judges the same content
+                //  through the digest of `fv long`)
+                // a quotient of 2^16 or more next to many small ones, under a low Rice limit, single-thread
+                let k = [7usize, 6, 5][(idx / 100) % 3];
+                family = format!("impnoise{k}");
+                bps = 24;
+                bs = 16384;
+                cfg = Cfg { block_size: bs, max_parameter: k, use_lpc: false, fixed_max_order: 1, partitions: None, ..Cfg::default() };
+                mode = Mode::St;
+                wide = Some(1);
+            }
             "c08" if idx % 25 == 7 => {
                 // coded sizes of 2^32 + delta bits: reported sizes kept in 32 bits wrap (see the c09 profile)
                 family = "wrap32".to_string();
@@ -487,7 +499,7 @@ pub fn gen_cases(profile: &str, seed: u64, b: &Budget) -> Vec<Case> {
             cfg.block_size = bs;
             cfg.use_lpc = false;
         }
-        let big = b.bigshare > 0 && idx % b.bigshare == b.bigshare / 2 && !long && !["dcedge", "ricebump", "wrap32", "fullsine", "nearverb2"].contains(&family.as_str()) && profile != "c13";
+        let big = b.bigshare > 0 && idx % b.bigshare == b.bigshare / 2 && !long && !["dcedge", "ricebump", "wrap32", "fullsine", "nearverb2"].contains(&family.as_str()) && !family.starts_with("impnoise") && profile != "c13";
         if big {
             bs = [4096usize, 9216, 2304, 18432, 8192, 16384, 4608, 32767, 1152, 12000][(idx / b.bigshare) % 10];
             cfg.block_size = bs;
@@ -508,7 +520,7 @@ pub fn gen_cases(profile: &str, seed: u64, b: &Budget) -> Vec<Case> {
         }
         if let Some(c) = wide {
             ch = c;
-            n = if profile == "c13" || family == "nearverb2" { bs } else { bs * (1 + idx % 2) + [0usize, 1, 100][idx % 3] };
+            n = if profile == "c13" || family == "nearverb2" { bs } else if family.starts_with("impnoise") { bs + 50 } else { bs * (1 + idx % 2) + [0usize, 1, 100][idx % 3] };
         }
         if long {
             ch = 1 + idx % 2;
